@@ -126,7 +126,13 @@ def _build_field(codec, f, hang_guard):
     if kind == "FSeq":
         _, nm, l, p, item = f
         it = build(item, hang_guard=hang_guard, _item=True)
-        return _attach(codec.Sequence(item=it).f(pyname(nm), len=_fix(l)), l, p)
+        # both documented ways of giving a sequence its item: the item= keyword, or a subclass with a class-level ITEM
+        # (chosen by a property of the field name, so that a definition is always built the same way)
+        if sum(map(ord, str(nm))) % 3 == 0:
+            seq = type("Seq_" + pyname(nm), (codec.Sequence,), {"ITEM": it})()
+        else:
+            seq = codec.Sequence(item=it)
+        return _attach(seq.f(pyname(nm), len=_fix(l)), l, p)
     raise ValueError("unknown field kind %r" % (kind,))
 
 
